@@ -192,6 +192,7 @@ def primitives(ctx) -> None:
     se = prog.func(f'{SPAN}:Segment.extend')
     text = core.src(se.node)
     ctx.check('right.subscribe(self.publisher)' in text and 'return Segment(self._head, tail)' in text and 'tail = right._tail' in text, 'C03.trunk', se, 'Segment.extend feeds the right head from our tail and keeps our head', se.node, key='Segment.extend')
+    segment_extend(ctx, se)
     sp = prog.func(f'{SPAN}:Segment.publisher')
     ss = prog.func(f'{SPAN}:Segment.subscribe')
     ctx.check('self._tail[0].publisher' in core.src(sp.node) and 'self._head[0].subscribe(publisher)' in core.src(ss.node), 'C03.trunk', sp, 'a segment publishes from its tail and subscribes with its head', sp.node, key='Segment.io')
@@ -213,8 +214,78 @@ def primitives(ctx) -> None:
     ctx.check('copies.get(node) or copies.setdefault(node, node.fork())' in core.src(tc.node), 'C03.copy', tc, 'copied nodes are forks (same group => same state) created once per node', tc.node, key='Traversal.copy:fork')
 
 
+def segment_extend(ctx, se: core.FuncInfo) -> None:
+    """Segment.extend, statement by statement (canonical guards): the extended segment ends at the *traced* tail of what was
+    appended - a bare node is wrapped as Segment(node) with no explicit tail so that a pre-wired chain is followed to its end."""
+    prog = ctx.prog
+    stmts = {core.src(n): n for n in core.walk_local(se.node) if isinstance(n, (ast.Assign, ast.Expr, ast.Return))}
+
+    def under(text: str, want: list[tuple[str, bool]], msg: str, key: str) -> None:
+        n = stmts.get(text)
+        got = cfg.cguards(n, se.node) if n is not None else None
+        ctx.check(n is not None and sorted(got) == sorted(want), 'C03.trunk', se, f'{msg} (`{text}` under {want}; found under {got})', n or se.node, key=key)
+
+    node_t = 'isinstance(right, atomic.Node)'
+    under('right = Segment(right)', [('right', True), (node_t, True)], 'a bare node is wrapped into a segment whose tail is traced from it (no explicit tail)', 'extend:wrap')
+    under('right.subscribe(self.publisher)', [('right', True)], 'the appended head is fed from our tail', 'extend:subscribe')
+    under('tail = right._tail', [('right', True), ('tail', False)], 'without an explicit tail the new tail is the tail of what was appended', 'extend:tail')
+    under('tail = Traversal(self._tail).tail().pivot', [('right', False), ('tail', False)], 'without anything appended the segment is retraced to its physical tail', 'extend:retrace')
+    under('return Segment(self._head, tail)', [], 'the extended segment keeps our head', 'extend:return')
+    wraps = [c for c in core.calls_in(se.node) if core.src(c.func) == 'Segment' and c.args and core.src(c.args[0]) == 'right']
+    ctx.check(all(len(c.args) == 1 and not c.keywords for c in wraps) and len(wraps) == 1, 'C03.trunk', se, 'Segment(right) is built with the head only', wraps[0] if wraps else se.node, key='extend:wrap-arity')
+    new = prog.func(f'{SPAN}:Segment.__new__')
+    body = [core.src(x) for x in new.inlined().node.body if isinstance(x, (ast.Assign, ast.Return))]
+    ctx.check(body == ['tail = Traversal(head).tail(tail).pivot', 'return super().__new__(cls, (head, tail))'], 'C03.trunk', new, 'Segment(head, tail) = (head, the tail traced from head up to the expected one)', new.node, key='Segment.__new__')
+
+
+SLOTS = ('apply', 'train', 'label')
+DECORATOR_OWN = {  # decorator -> the slots it fills with the decorated actor (docstring of wrap.Operator)
+    'apply': {'apply'}, 'train': {'train'}, 'label': {'label'}, 'mapper': {'apply', 'train'},
+}
+
+
+def wrap_decorators(ctx) -> None:
+    """wrap.Operator.{apply,train,label,mapper}: the decorated actor fills the decorator's own slot(s) and every other slot
+    is inherited from the parent operator (split-fashion decoration keeps the parent's label/train/apply actors)."""
+    prog = ctx.prog
+    op = prog.cls(f'{WRAP}:Operator')
+    setup = prog.cls(f'{WRAP}:Setup')
+    fields = list(setup.annotations)
+    ctx.check(fields == ['origin', *SLOTS], 'C03.wrap', setup.ref, f'Setup fields are (origin, apply, train, label) - found {fields}', key='Setup:fields', loc=setup.module.relpath)
+    n = 0
+    for st in op.node.body:
+        if not (isinstance(st, ast.Assign) and isinstance(st.targets[0], ast.Name) and st.targets[0].id in DECORATOR_OWN):
+            continue
+        name = st.targets[0].id
+        lam = next((x for x in ast.walk(st.value) if isinstance(x, ast.Lambda)), None)
+        call = lam.body if lam is not None and isinstance(lam.body, ast.Call) and core.src(lam.body.func) == 'Setup' else None
+        if call is None or len(lam.args.args) != 2:
+            ctx.fail('C03.wrap', op.ref, f'decorator `{name}` is not Decorator(lambda parent, builder: Setup(...))', st, key=f'decorator:{name}:shape')
+            continue
+        n += 1
+        parent, builder = (a.arg for a in lam.args.args)
+        bound = {f: core.src(a) for f, a in zip(fields, call.args)}
+        bound.update({k.arg: core.src(k.value) for k in call.keywords if k.arg})
+        want = {'origin': builder}
+        for slot in SLOTS:
+            want[slot] = builder if slot in DECORATOR_OWN[name] else f'{parent}.{slot.capitalize()}'
+        ctx.check(bound == want, 'C03.wrap', op.ref, f'decorator `{name}` fills {sorted(DECORATOR_OWN[name])} with the decorated actor and inherits the other slots from the parent (wanted {want}, found {bound})', st, key=f'decorator:{name}')
+    ctx.floor('C03.wrap-decorators', n, 4)
+    meta = prog.func(f'{WRAP}:Meta.__new__')
+    pairs = {}
+    for d in ast.walk(meta.node):
+        if isinstance(d, ast.Dict):
+            for k, v in zip(d.keys, d.values):
+                pairs[core.src(k)] = core.src(v)
+    want = {f'Operator.{f.capitalize()}.fget.__name__': f'setup.{f}' for f in fields}
+    ctx.check(pairs == want, 'C03.wrap', meta, f'the decorated class binds each builder to the property of its own mode ({pairs})', meta.node, key='Meta:namespace')
+
+
 def run(ctx) -> None:
+    from . import C12
     operators(ctx)
     wrap_label_order(ctx)
+    wrap_decorators(ctx)
+    C12.ensembler(ctx)  # discharges the roles assumed for `folds` in the stacking builders (Fold fields come from the fold's own scope segments)
     primitives(ctx)
     shared.argname_scope(ctx, ('forml.flow._suite', 'forml.flow._graph', 'forml.pipeline', 'forml.evaluation._stage'), floor=2)
